@@ -23,7 +23,7 @@ func ruleEnsure(c *Ctx) {
 	l := c.L
 	const field = "EnsurePathExistsOnAdd"
 	ai := b.findApply()
-	ep := fnOf(b.Lib, "ensurePathExists")
+	ep := b.roleFn("ensurePathExists")
 	if ai == nil || ai.handlers["add"] == nil || ep == nil {
 		l.add("R-ENSURE", "v5", "anchor", "", Undecided, "add handler or ensurePathExists not found", false)
 		return
